@@ -21,6 +21,7 @@ fn replay(file: &str) -> ! {
         "vesting-component" => replay_with(&c14::scenario_component(tier), &v),
         "withdrawals" => replay_with(&c14::scenario_actor(tier), &v),
         "multisig" => replay_with(&c12::scenario(tier).0, &v),
+        s if s.starts_with("c01") => c01::replay(&v),
         s if s.starts_with("c09") => c09::replay(&v),
         s if s.starts_with("c17") => c17::replay(&v),
         s if s.starts_with("c18") => c18::replay(&v),
@@ -52,6 +53,7 @@ fn real_main() {
     let tier = args.get(2).cloned().or(std::env::var("VERIF_TIER").ok()).unwrap_or("quick".into());
     match args[1].to_uppercase().as_str() {
         "REPLAY" => replay(&args[2]),
+        "C01" => c01::run(&tier),
         "C02" => c02::run(&tier),
         "C03" => c03::run(&tier),
         "C04" => c04::run(&tier),
